@@ -223,7 +223,13 @@ func FamLinkEnd(seed int64) SysRecord {
 				done <- SysCall{Tag: 960, From: "A", Method: "InFlightAtEnd", Ret: canon(v), Err: errText(err), Done: true}
 			}()
 			time.Sleep(2 * time.Millisecond)
-			reqIn.ch <- json.RawMessage(`{"call":"p1","function":"EchoInt","args":[970,5]}`)
+			if variant-(3*ns+4) == 2 {
+				// the function whose response cannot be written has no return values at all
+				rec.Config += " (handler without return values)"
+				reqIn.ch <- json.RawMessage(`{"call":"p1","function":"Notify0","args":[970]}`)
+			} else {
+				reqIn.ch <- json.RawMessage(`{"call":"p1","function":"EchoInt","args":[970,5]}`)
+			}
 		}
 		finish(rem, done, rec.Config)
 		cancel()
@@ -1019,5 +1025,200 @@ func FamHealthyStaysUp(seed int64) SysRecord {
 		}
 	}
 	p.close()
+	return rec
+}
+
+// FamRelayClosure — a handler serving link 0 invokes a callable that the peer of link 1 passed (that call is
+// still in flight), using the context of its own request; then link 0 ends. The invocation is aborted with that
+// context's error - link 1 itself, its call in flight and new calls on it are unaffected.
+func FamRelayClosure(seed int64) SysRecord {
+	c := jsonRawCodec()
+	rec := SysRecord{Family: "relay", Config: c.Name + "/closure relayed with the other link's request context", Seed: seed}
+	w := newWorld()
+	hub := NewSysNode[json.RawMessage](w, "H")
+	spokes := []*SysNode[json.RawMessage]{NewSysNode[json.RawMessage](w, "S0"), NewSysNode[json.RawMessage](w, "S1")}
+	links := make([]*SysLink[json.RawMessage], 2)
+	for i := range spokes {
+		links[i] = Connect(w, hub, spokes[i], c, (seed+int64(i))%2 == 0, -1, seed+int64(i))
+		if !WaitRemotes(hub, i+1) || !WaitRemotes(spokes[i], 1) {
+			rec.Notes = append(rec.Notes, "link did not come up")
+			return rec
+		}
+	}
+	toHub := func(i int) sysRemote {
+		for _, r := range spokes[i].Remotes() {
+			return r
+		}
+		return sysRemote{}
+	}
+	ctx, cancel := context.WithTimeout(context.Background(), 15*time.Second)
+	defer cancel()
+	var mu sync.Mutex
+	add := func(cl SysCall) { mu.Lock(); rec.Calls = append(rec.Calls, cl); mu.Unlock() }
+	cbStarted := make(chan struct{})
+	var once sync.Once
+	bdone := make(chan struct{})
+	go func() {
+		defer close(bdone)
+		v, err := toHub(1).KeepWait(ctx, 7700, func(ctx context.Context, x int) (int, error) {
+			once.Do(func() { close(cbStarted) })
+			<-w.gate(7702)
+			return x, nil
+		})
+		add(SysCall{Tag: 7700, From: "S1", Method: "InFlightOnOtherLink", Ret: canon(v), Err: errText(err), Done: true})
+	}()
+	if !waitUntil(func() bool { w.mu.Lock(); defer w.mu.Unlock(); return w.kept[7700] != nil }, 3*time.Second) {
+		rec.Notes = append(rec.Notes, "the hub never received the callable")
+	}
+	go func() { toHub(0).RelayCb(ctx, 7701, 7700) }()
+	select {
+	case <-cbStarted:
+	case <-time.After(3 * time.Second):
+		rec.Notes = append(rec.Notes, "the relayed invocation never reached the function on link 1's peer")
+	}
+	// link 0 ends
+	links[0].CancelA()
+	links[0].CancelB()
+	links[0].CloseTransport(errors.New("link 0 failed"))
+	time.Sleep(30 * time.Millisecond)
+	pctx, pcancel := context.WithTimeout(ctx, 3*time.Second)
+	v, err := toHub(1).EchoInt(pctx, 7703, 42)
+	pcancel()
+	add(SysCall{Tag: 7703, From: "S1", Method: "ProbeOtherLink", Ret: canon(v), Err: errText(err), Done: true})
+	for k, ch := range []chan error{links[1].ErrA, links[1].ErrB} {
+		select {
+		case e := <-ch:
+			add(SysCall{Tag: 7704 + k, Method: "OtherLinkStillUp", Ret: "RETURNED", Err: errText(e), Extra: []string{"the hub's side", "the peer's side"}[k], Done: true})
+			ch <- e
+		default:
+			add(SysCall{Tag: 7704 + k, Method: "OtherLinkStillUp", Ret: "up", Extra: []string{"the hub's side", "the peer's side"}[k], Done: true})
+		}
+	}
+	close(w.gate(7702))
+	close(w.gate(7700))
+	select {
+	case <-bdone:
+	case <-time.After(4 * time.Second):
+		add(SysCall{Tag: 7700, From: "S1", Method: "InFlightOnOtherLink", Err: "DID-NOT-RETURN", Done: true})
+	}
+	for _, l := range links {
+		l.CancelA()
+		l.CancelB()
+		l.CloseTransport(io.EOF)
+	}
+	return rec
+}
+
+// FamEndWhileClosureRuns — C16 "without waiting for handlers": one real registry against a scripted raw peer. A
+// call passes a function; the peer invokes it and the function stays inside application code; while it runs, a
+// failure is detected on the caller's path of a call that passes a function:
+//   variant 0: the peer answers that call with a value that cannot be decoded into the result type;
+//   variant 1: the request write of a second call that passes a function fails.
+// Link returns that error promptly - the running function is released only afterwards.
+func FamEndWhileClosureRuns(seed int64, variant int) SysRecord {
+	what := []string{"the response of a call that passes a function cannot be decoded", "the request write of a second call that passes a function fails"}[variant]
+	rec := SysRecord{Family: "linkend", Config: "json-raw/message while a function passed by a call is running, " + what, Seed: seed}
+	w := newWorld()
+	node := NewSysNode[json.RawMessage](w, "A")
+	c := jsonRawCodec()
+	ctx, cancel := context.WithCancel(context.Background())
+	defer cancel()
+	errc := make(chan error, 1)
+	reqIn, resIn := newFailQ(), newFailQ()
+	reqOut := make(chan string, 16)
+	var nreq int32
+	var mu sync.Mutex
+	wreq := func(b json.RawMessage) error {
+		mu.Lock()
+		nreq++
+		k := nreq
+		mu.Unlock()
+		if variant == 1 && k == 2 {
+			return errors.New("connection reset by peer")
+		}
+		reqOut <- string(b)
+		return nil
+	}
+	sink := func(b json.RawMessage) error { return nil }
+	go func() { errc <- node.Reg.LinkMessage(ctx, wreq, sink, reqIn.Get, resIn.Get, c.Marshal, c.Unmarshal, nil) }()
+	defer func() {
+		cancel()
+		other := errors.New("closed")
+		select {
+		case reqIn.fail <- other:
+		default:
+		}
+		select {
+		case resIn.fail <- other:
+		default:
+		}
+	}()
+	if !WaitRemotes(node, 1) {
+		rec.Notes = append(rec.Notes, "link did not come up")
+		return rec
+	}
+	var rem sysRemote
+	for _, x := range node.Remotes() {
+		rem = x
+	}
+	running, release := make(chan struct{}), make(chan struct{})
+	var once sync.Once
+	defer once.Do(func() { close(release) })
+	cdone := make(chan SysCall, 1)
+	go func() {
+		v, err := rem.Delayed(context.Background(), 990, func(ctx context.Context, x int) (int, error) {
+			close(running)
+			<-release
+			return x, nil
+		})
+		cdone <- SysCall{Tag: 990, From: "A", Method: "InFlightAtEnd", Ret: canon(v), Err: errText(err), Done: true}
+	}()
+	var q struct {
+		Call string            `json:"call"`
+		Args []json.RawMessage `json:"args"`
+	}
+	select {
+	case f := <-reqOut:
+		json.Unmarshal([]byte(f), &q)
+	case <-time.After(3 * time.Second):
+		rec.Notes = append(rec.Notes, "the request of the call that passes a function was not written")
+		return rec
+	}
+	if len(q.Args) < 2 {
+		rec.Notes = append(rec.Notes, "unexpected request frame")
+		return rec
+	}
+	// the peer invokes the function; it stays inside application code
+	reqIn.ch <- json.RawMessage(fmt.Sprintf(`{"call":"p1","function":"CallClosure","args":[%s,[7]]}`, string(q.Args[1])))
+	select {
+	case <-running:
+	case <-time.After(3 * time.Second):
+		rec.Notes = append(rec.Notes, "the function passed by the call was not invoked")
+		return rec
+	}
+	want := ""
+	if variant == 0 {
+		resIn.ch <- json.RawMessage(fmt.Sprintf(`{"call":%q,"value":"not a number","err":""}`, q.Call))
+		want = "cannot unmarshal"
+	} else {
+		go func() {
+			rem.Delayed(context.Background(), 991, func(ctx context.Context, x int) (int, error) { return x, nil })
+		}()
+		want = "connection reset by peer"
+	}
+	select {
+	case err := <-errc:
+		rec.Calls = append(rec.Calls, SysCall{Tag: 992, Method: "LinkReturn", Ret: "returned", Err: errText(err), Oracle: want, Extra: rec.Config, Done: true})
+	case <-time.After(3 * time.Second):
+		rec.Calls = append(rec.Calls, SysCall{Tag: 992, Method: "LinkReturn", Ret: "DID-NOT-RETURN within 3 s (it waits for the running function)", Oracle: want, Extra: rec.Config})
+	}
+	once.Do(func() { close(release) })
+	select {
+	case cl := <-cdone:
+		cl.Extra = rec.Config
+		rec.Calls = append(rec.Calls, cl)
+	case <-time.After(3 * time.Second):
+		rec.Calls = append(rec.Calls, SysCall{Tag: 990, From: "A", Method: "InFlightAtEnd", Extra: rec.Config + ": DID-NOT-RETURN within 3 s"})
+	}
 	return rec
 }
